@@ -116,6 +116,20 @@ CHECKS["C05"] = dict(
     note="Trusted: as C03. Symbolic model: curve relations and real cryptographic strength are outside the free algebra; random crypto keys unknown to the harness are covered by the proof only; zeroing of Go heap copies cannot be exhibited by any model. Three defects repaired (34102a8, a56f4eb, 30c1bd3).",
     technique="Coq proof (symbolic secrecy invariant over histories, gate and frame over reachable states) + raw-storage taint scan and record-shape correspondence",
 )
+CHECKS["C07"] = dict(
+    category="proof",
+    text="Coq model of the background import (status ready/importing-with-cursor, batches of B heights in one commit, hand-over only at the handler's tip, cursor pull-back on disconnect, retry on failure) over the C01 ledger: for ANY batch size and any number of batches a wallet restored on a static well-formed chain ends ready with exactly the live ledger of C01 (= the chain specification) and is unready and unselectable before (theorem labelled _partial: static chain, fresh database); step lemmas for batches, failed batches and pull-back; refutation witnesses for the two repaired defects. Interleavings with tips and reorgs are tied by correspondence: an original wallet lives through a generated history, a twin is restored from mnemonic or exported keystore in a second instance on the same node while blocks and reorgs arrive between batches (DB gate parks the worker after each commit), incl. 1010-1160 block chains for multi-batch rescans; twin = model = chain specification = original.",
+    design_ref="DESIGN.md section 5, C07",
+    note="Trusted: Coq kernel (no axioms), ExtrOcamlBasic + driver, harness (sim/hist/gate), mass-core's script-hash index (environment, written by the sim). Pending set, key derivation and gap discovery are inputs to this model (C09, C04, C12). Two defects repaired (7082cdf, 4701beb).",
+    technique="Coq proof (batched rescan = live ledger for every batch size, by induction on batches using the C01 theorems) + twin correspondence on real WalletManager instances with controlled interleavings",
+)
+CHECKS["C08"] = dict(
+    category="proof",
+    text="Coq model of wallet removal (flag, phase 1 prefix deletes, phase 2 rounds with a per-round cap, removable-transaction rule, status and keystore deletion) over the C01 ledger: when the last round finishes nothing mentions the wallet or its script hashes and it is not listed (any cap); every removal step leaves other wallets' credits, reports, status and addresses unchanged; block processing during a removal never panics and never re-creates rows (repaired code); re-import works; removal needs the passphrase and is refused while importing; three refutation witnesses for the code as found. Tied to the code by multi-wallet histories in one instance (shared transactions, pending transactions, staking/binding records), removal at random moments incl. restarts between steps and blocks/reorgs observed between two steps, a raw scan of the LevelDB files for the wallet id / script hashes / addresses, survivors compared with the chain specification before, after and after a further 2-5 deep reorg, plus eight directed scenarios.",
+    design_ref="DESIGN.md section 5, C08",
+    note="Trusted: as C07. Survivors' correctness under LATER connects/reorgs is by repaired-on-witness examples and correspondence, not a general theorem; unspent/address/game rows are views of the credits in the model (their prefix deletes are checked by the raw scan). Three defects repaired (bb52441, 07c06d4).",
+    technique="Coq proof (erasure and frame invariants of the removal state machine) + correspondence on real multi-wallet histories with raw-storage scan",
+)
 NOT_YET = "not claimed yet in this round: model and correspondence under construction (see DESIGN.md section 9 for the order)"
 
 def main():
